@@ -1608,10 +1608,10 @@ class TaskScenario(ScenarioData):
         """
         total_cost = 0.0
 
-        # Get resources for this task
-        resources = self._getResourcesForTask()
-
-        for resource in resources:
+        # Walk the booking ledgers of all resources rather than the allocation
+        # list: the resource that did the work may be an alternative, and a
+        # resource listed twice must not be counted twice.
+        for resource in self.project.resources:
             # Get the resource's scenario data
             res_scenario = resource.data[self.scenarioIdx] if resource.data else None
             if res_scenario is None:
